@@ -1108,10 +1108,10 @@ class ConfusionMatrixAd(_LabelData, Adapter):
     # second audit round: configurations of C01 only
     #  'all'  = every rate (also the tn-based ones) although the vocabulary is
     #           deduced from the data; the classes drift along the dataset
-    # (macro without vocab on binary / indicator input - class positions fixed by
-    #  the encoding - is a configuration of both checks: third audit round)
-    if metrics == 'all' or (not vocab and self.needs_vocab
-                            and average in ('macro', 'binary')):
+    # (macro without vocab: every merge is refused - an accepted, documented
+    #  refusal, see accepts_refusal - so there are no merge laws to check in C11)
+    if metrics == 'all' or (not vocab and (
+        average == 'macro' or (average == 'binary' and self.needs_vocab))):
       self.checks = ('C01',)
     self.drift = metrics == 'all'
     self.n_classes = 2 if (input_type == 'multiclass-indicator'
@@ -1184,17 +1184,20 @@ class ConfusionMatrixAd(_LabelData, Adapter):
     return (not self.needs_vocab and self.average == 'macro' and not self.with_vocab)
 
   def accepts_refusal(self, exc, step):
-    # A ValueError that names the missing vocab is the documented way out where a
-    # vocab has a job: the class docstring requires one "if computed distributed
-    # ... and the average is macro where the class id mapping needs to be stable",
-    # i.e. for the encodings that map labels to columns through a vocabulary
-    # (multiclass / multiclass-multioutput). Binary and indicator input never
-    # read the vocab - the mapping is stable by construction - so the same
-    # refusal is not accepted there (third audit round; it used to be).
+    # A ValueError that names the missing vocab is a documented precondition, not a
+    # result: the class docstring says of `vocab` "This is required if computed
+    # distributed (when merge_accumulators is called) and the average is macro", and
+    # the upstream test test_confusion_matrix_multiclass_macro_vocab_reqruired pins
+    # the refusal on the default (binary) input. Two audits pointed out that binary
+    # and indicator input never read the vocab (any dummy vocab gives the one-batch
+    # value), so the precondition is wider than necessary there; that is a
+    # usability remark on a loud, documented refusal and not a violation of C01 /
+    # C11 (DESIGN 15, third round). The cases are counted
+    # (macro_fixed_position_no_vocab_cases) so the accepted refusals stay visible.
     del step
     if not _vocab_refusal(exc) or self.with_vocab:
       return False
-    return self.needs_vocab
+    return True
 
 
 class SamplewiseAd(_LabelData, Adapter):
